@@ -159,6 +159,23 @@ Inductive rsp :=
 | RFault (log : list call) (c : fcode)
 | RCrash (log : list call) (e : exn).
 
+(** deserialize(): a decoded message that is None (the request element is xsi:nil, or a bare primitive without
+    content) is replaced by [None] * len(body_class._type_info) -- one None per OWN member of the message class;
+    a primitive class has no _type_info: AttributeError, outside the try block of get_in_object *)
+Definition absent_args (U : universe) (t : ty) (v : val) : exn + val :=
+  match v with
+  | VNone =>
+      match t with
+      | TLeaf _ => inl AttributeError
+      | TRef c => match get_cls U c with
+                  | Some cl => inr (VList (repeat VNone (length (c_own cl))))
+                  | None => inl KeyError
+                  end
+      | TArr _ _ _ => inr (VList [VNone])                   (* an Array class has one member *)
+      end
+  | _ => inr v
+  end.
+
 Section Pipeline.
   Variable L : leaf_codec.
   Variable P : proto.
@@ -274,12 +291,19 @@ Section Pipeline.
                   match dec L C U fuel (fst (req_ty U0 i m)) (snd (req_ty U0 i m)) body with
                   | VFault => RFault [] FValidation
                   | Crash e => RCrash [] e
-                  | Ok inobj =>
+                  | Ok inobj0 =>
+                    match absent_args U (fst (req_ty U0 i m)) inobj0 with
+                    | inl e => RCrash [] e
+                    | inr inobj =>
                       (* process_request: the argument sequence *)
                       let args := match eff_style m with
                                   | EBare => Some [inobj]
                                   | EEmpty => Some []
-                                  | _ => match inobj with VObj _ fs => Some fs | _ => None end   (* tuple(ctx.in_object) *)
+                                  | _ => match inobj with
+                                         | VObj _ fs => Some fs                                  (* tuple(ctx.in_object) *)
+                                         | VList l => Some l                                     (* already a sequence *)
+                                         | _ => None
+                                         end
                                   end in
                       match args with
                       | None => RFault [] FServer                     (* TypeError inside process_request *)
@@ -292,6 +316,7 @@ Section Pipeline.
                           | Crash e => RCrash log e
                           end
                       end
+                    end
                   end
               end
           end
@@ -326,11 +351,12 @@ Section Pipeline.
     | inr (hdoc, Some body) =>
         do ohdr0 <- hdr_in (m_out_header m) hdoc;
         let ohdr := match ohdr0 with Some [VNone] => None | _ => ohdr0 end in   (* len(headers) == 1: the header itself *)
-        do v <- dec L C U fuel (fst (resp_ty U0 i m)) (snd (resp_ty U0 i m)) body;
+        do v0 <- dec L C U fuel (fst (resp_ty U0 i m)) (snd (resp_ty U0 i m)) body;
+        do v <- match absent_args U (fst (resp_ty U0 i m)) v0 with inl e => Crash e | inr v => Ok v end;
         match m_style m, m_returns m, v with
         | SWrapped, [], _ => Ok (VNone, ohdr)
         | SWrapped, [_], VObj _ [x] => Ok (x, ohdr)
-        | SWrapped, [_], _ => Ok (VNone, ohdr)                        (* getattr(None, name, None) *)
+        | SWrapped, [_], _ => Ok (VNone, ohdr)                        (* getattr(<list of None>, name, None) *)
         | SWrapped, _, VObj _ xs => Ok (VList xs, ohdr)
         | _, _, _ => Ok (v, ohdr)
         end
